@@ -60,6 +60,10 @@ fn main() {
                 if &cat != s { out.fail(&case, "tokens-differ-from-string", &format!("query {}: concatenated tokens {:?} but serialisation {:?}", qi, cat, s)); }
             }
             if o.ser.is_ok() != o.tokens.is_ok() { out.fail(&case, "tokens-availability", &format!("query {}: string serialisation {:?} but token stream {}", qi, o.ser.as_ref().map(|_| "ok"), if o.tokens.is_ok() { "ok" } else { "panicked" })); }
+            if let Ok(toks) = &o.pretty_tokens {
+                let deepest = toks.iter().map(|t| t.1).max().unwrap_or(0);
+                stats.bump(if deepest >= 16 { "pretty.deepest_indentation_16_or_more" } else if deepest >= 8 { "pretty.deepest_indentation_8_to_15" } else { "pretty.deepest_indentation_below_8" });
+            }
             if let (Ok(s), Ok(toks)) = (&o.pretty, &o.pretty_tokens) {
                 let cat: String = toks.iter().map(|(_, ind, sp, t, nl)| format!("{}{}{}{}", " ".repeat(ind * 2), if *sp { " " } else { "" }, t, if *nl { "\n" } else { "" })).collect();
                 if &cat != s { out.fail(&case, "pretty-tokens-differ-from-string", &format!("query {}: pretty tokens give {:?} but pretty serialisation {:?}", qi, cat, s)); }
@@ -72,6 +76,16 @@ fn main() {
                         let i = ev.iter().zip(o.outputs.iter()).position(|(x, y)| x != y).unwrap_or(ev.len().min(o.outputs.len()));
                         out.fail(&case, "token-events-differ-from-outputs", &format!("query {}: {} pairs position {} with {:?} where outputs() lists {:?} ({} against {} events)", qi, what, i, ev.get(i), o.outputs.get(i), ev.len(), o.outputs.len()));
                     }
+                }
+            }
+            // the Write-based entry points and the *_with_normalizer forms (no-op normaliser) emit the bytes of the string forms,
+            // under the same parameters
+            for (label, got) in &o.written {
+                let want = if label.contains("indented") { &o.pretty } else { &o.ser };
+                match (want, got) {
+                    (Ok(s), Ok(b)) => if s.as_bytes() != &b[..] { out.fail(&case, "write-differs", &format!("query {}: {} gives {:?} where the string form gives {:?}", qi, label, String::from_utf8_lossy(b), s)); },
+                    (Err(_), Err(_)) => {}
+                    _ => out.fail(&case, "write-differs", &format!("query {}: {} and the string form disagree on success ({:?} / {:?})", qi, label, got.as_ref().map(|_| "ok"), want.as_ref().map(|_| "ok"))),
                 }
             }
             // Write-based entry point emits the same bytes
